@@ -279,8 +279,64 @@ def t_swallowed_exception_monitor():
     return 1
 
 
+def t_constmerge_equivalence(n=300):
+    """The constant-arm merge of the third-party IL evaluator computes, on concrete values, exactly
+    what the untouched module computes (shift/rotate helpers, the arithmetic/logic evaluators'
+    flags), and a symbolic test gives the ite of both arms."""
+    import ast
+    import importlib.util
+    import random
+    from . import astpass
+    os_env = __import__("os").environ
+    os_env["FORCE_BINJA_MOCK"] = "1"
+    from binja_test_mocks import binja_api  # noqa: F401
+    spec = importlib.util.find_spec("binja_test_mocks.eval_llil")
+    src = open(spec.origin).read()
+    import sys
+    import types
+    mods = []
+    for nm in ("binja_test_mocks.symx_plain_eval", "binja_test_mocks.symx_merged_eval"):
+        m = types.ModuleType(nm)
+        m.__package__ = "binja_test_mocks"
+        m.__file__ = spec.origin
+        sys.modules[nm] = m
+        mods.append(m)
+    plain, merged = mods[0].__dict__, mods[1].__dict__
+    exec(compile(ast.parse(src), spec.origin, "exec"), plain)
+    tree = astpass.ConstMerge().visit(ast.parse(src))
+    ast.fix_missing_locations(tree)
+    merged.update(astpass.HOOKS)
+    exec(compile(tree, spec.origin, "exec"), merged)
+    assert astpass.ConstMerge.count >= 10, "the pass found no `K1 if c else K2` to merge: evaluator source changed?"
+    rnd = random.Random(7)
+    k = 0
+    for _ in range(n):
+        size = rnd.choice((1, 2, 3, 4))
+        val = rnd.randrange(1 << (8 * size))
+        cnt = rnd.choice((0, 1, 2, 3, 4, 7, 8, 9, 15, 16, 24, 31))
+        for fn in ("_lsl_impl", "_lsr_impl"):
+            assert plain[fn](size, val, cnt) == merged[fn](size, val, cnt), (fn, size, val, cnt)
+            k += 1
+        for fn in ("_rotate_impl",):
+            for left in (True, False):
+                assert plain[fn](size, val, cnt, left=left) == merged[fn](size, val, cnt, left=left)
+                k += 1
+    # a symbolic test yields the ite term, not a fork
+    run = core.Run()
+
+    def body(eng):
+        a = eng.fresh("a", 8)
+        r = merged["__symx_ite"](a == 0, 1, 0)
+        eng.prove("ite", core.T(r) == z3.If(core.T(a) == 0, z3.BitVecVal(1, core.W), z3.BitVecVal(0, core.W)))
+        return 0
+
+    explore(body, run=run)
+    assert run.stats.paths == 1 and all(o.status == "proved" for o in run.obligations)
+    return k + 1
+
+
 TESTS = [t_proxy_differential, t_shims, t_exploration_exhaustive, t_refutation_and_vacuity,
-         t_memory_and_cut_log, t_no_int_subclass, t_swallowed_exception_monitor]
+         t_memory_and_cut_log, t_no_int_subclass, t_swallowed_exception_monitor, t_constmerge_equivalence]
 
 
 def main(quiet=False):
